@@ -22,6 +22,15 @@
      App.Cleanup (rs.Stop, closes a     s_cleaned; a second Cleanup panics (close of a closed
        channel)                           channel), Cleanup of a never prepared App panics (nil)
      actormodule's package var system   s_live: a system exists and is not shut down
+     what survives a life cycle         s_bound: the node's fixed port is still bound by the remote of an
+                                        earlier actor system (the framework never closes that listener);
+                                        s_pub: the actor system published to the node (app.SetActorSystem)
+     the owner's completion callbacks   e_cbs / e_cbp: the App-level request (Start / Stop) made from INSIDE
+                                        the start / stop completion callback; ModList.Filter holds the
+                                        list's lock while its first chain of synchronous modules runs, so
+                                        an accepted request made there never returns ([EDeadlock], the
+                                        history is over); made from a later completion it runs right
+                                        there, as a new run, before the caller's frames continue
      ClusterModule.provider             s_prov: modules whose provider is not nil; s_half: those whose
                                         provider was never initialised (StartMember failed in init)
      the etcd operations under the      e_faults: which of them fail (fault); each step of
@@ -143,12 +152,23 @@ Definition cluster_stop_prog_fallthrough (prov half delete_ok : bool) : list stm
     If (prov && negb delete_ok) [Next false];
     Do (Next true) ].
 
+(* the node's published actor system (app.Node.GetActorSystem()) relative to the module's own:
+   none yet / the same object as the package variable / an older one (alive or shut down).
+   Stop shuts the package variable down, whatever is published; the reference mistake of doing
+   it the other way round: *)
+Inductive pubst := PNone | PSame | POld (alive : bool).
+Definition actor_stop_prog_published (pub : pubst) (live : bool) : list stmt :=
+  [ If (match pub with PNone => true | PSame => negb live | POld a => negb a end) [Panic]; Do (Next true) ].
+
 (* ---- configuration ---- *)
-Inductive addr := AFree | ABusy | ABad.     (* node address: bindable / port in use / not host:port *)
+(* node address: bindable on a fresh port each time / port in use / not host:port / one fixed free
+   port (bindable until a remote has bound it: no Stop closes that listener) *)
+Inductive addr := AFree | ABusy | ABad | AFixed.
 Inductive mode :=
-| MList                   (* bare ModList.Start / ModList.Stop *)
+| MList                   (* bare ModList.Start / ModList.Stop; the node has no node info *)
 | MApp (prepared : bool)  (* baseapp.App through LaunchAppWithMode / App.Stop *)
-| MNode.                  (* node App through StartNode / StopNode (node info present) *)
+| MNode                   (* node App through StartNode / StopNode (node info present) *)
+| MListNode.              (* bare ModList on a node that has its node info (no App guard in the way) *)
 Inductive kind := KScript (st sp : beh) | KWelcome | KActor | KCluster.
 (* the etcd operation that fails (harness/c11/etcdfake.go); several may be declared *)
 Inductive fault :=
@@ -168,27 +188,38 @@ Inductive op :=
 | OEnv (a : addr) (enable etcd : bool)
 | OMod (k : kind)
 | OFault (f : fault)
+| OCallback (fwd req : bool)               (* the start (fwd) / stop completion callback requests App.Start (req) / App.Stop *)
 | OStart | OStop
 | OFire (k : Z) (b : bool).
 
-Record env := { e_mode : mode; e_addr : addr; e_enable : bool; e_etcd : bool; e_faults : list fault; e_mods : list kind }.
+Record env := { e_mode : mode; e_addr : addr; e_enable : bool; e_etcd : bool; e_faults : list fault;
+                e_cbs : option bool; e_cbp : option bool; e_mods : list kind }.
 
 Definition env0 : env :=
-  {| e_mode := MList; e_addr := AFree; e_enable := false; e_etcd := false; e_faults := []; e_mods := [] |}.
+  {| e_mode := MList; e_addr := AFree; e_enable := false; e_etcd := false; e_faults := []; e_cbs := None; e_cbp := None; e_mods := [] |}.
 
 Definition decl (e : env) (o : op) : env :=
   match o with
-  | OMode m => {| e_mode := m; e_addr := e_addr e; e_enable := e_enable e; e_etcd := e_etcd e; e_faults := e_faults e; e_mods := e_mods e |}
-  | OEnv a en et => {| e_mode := e_mode e; e_addr := a; e_enable := en; e_etcd := et; e_faults := e_faults e; e_mods := e_mods e |}
-  | OMod k => {| e_mode := e_mode e; e_addr := e_addr e; e_enable := e_enable e; e_etcd := e_etcd e; e_faults := e_faults e; e_mods := e_mods e ++ [k] |}
-  | OFault f => {| e_mode := e_mode e; e_addr := e_addr e; e_enable := e_enable e; e_etcd := e_etcd e; e_faults := f :: e_faults e; e_mods := e_mods e |}
+  | OMode m => {| e_mode := m; e_addr := e_addr e; e_enable := e_enable e; e_etcd := e_etcd e; e_faults := e_faults e;
+                  e_cbs := e_cbs e; e_cbp := e_cbp e; e_mods := e_mods e |}
+  | OEnv a en et => {| e_mode := e_mode e; e_addr := a; e_enable := en; e_etcd := et; e_faults := e_faults e;
+                       e_cbs := e_cbs e; e_cbp := e_cbp e; e_mods := e_mods e |}
+  | OMod k => {| e_mode := e_mode e; e_addr := e_addr e; e_enable := e_enable e; e_etcd := e_etcd e; e_faults := e_faults e;
+                 e_cbs := e_cbs e; e_cbp := e_cbp e; e_mods := e_mods e ++ [k] |}
+  | OFault f => {| e_mode := e_mode e; e_addr := e_addr e; e_enable := e_enable e; e_etcd := e_etcd e; e_faults := f :: e_faults e;
+                   e_cbs := e_cbs e; e_cbp := e_cbp e; e_mods := e_mods e |}
+  | OCallback fwd req =>
+      {| e_mode := e_mode e; e_addr := e_addr e; e_enable := e_enable e; e_etcd := e_etcd e; e_faults := e_faults e;
+         e_cbs := if fwd then Some req else e_cbs e; e_cbp := if fwd then e_cbp e else Some req; e_mods := e_mods e |}
   | _ => e
   end.
 
 Definition env_of (ops : list op) : env := fold_left decl ops env0.
 
-Definition info_ok (e : env) : bool := match e_mode e with MNode => true | _ => false end.
-Definition listen_ok (e : env) : bool := match e_addr e with ABusy => false | _ => true end.
+Definition info_ok (e : env) : bool := match e_mode e with MNode | MListNode => true | _ => false end.
+(* remote.Start can listen.  bound: the fixed port is held by an earlier remote *)
+Definition listen_ok (e : env) (bound : bool) : bool :=
+  match e_addr e with ABusy => false | AFixed => negb bound | _ => true end.
 
 (* outcome of each step of the cluster module in this environment.  e_etcd: something answers on
    the configured endpoint (false: the first request, the Get, does not succeed) *)
@@ -209,11 +240,11 @@ Definition keepalive_ok (e : env) : bool :=
 Definition delete_ok (e : env) : bool := negb (fails e FDelete).
 
 (* behaviour of a module when it is entered *)
-Definition entry_beh (e : env) (fwd live prov half : bool) (k : kind) : beh :=
+Definition entry_beh (e : env) (fwd live bound prov half : bool) (k : kind) : beh :=
   match k with
   | KScript st sp => if fwd then st else sp
   | KWelcome => beh_of (if fwd then welcome_start_prog else welcome_stop_prog)
-  | KActor => beh_of (if fwd then actor_start_prog (info_ok e) (listen_ok e) else actor_stop_prog live)
+  | KActor => beh_of (if fwd then actor_start_prog (info_ok e) (listen_ok e bound) else actor_stop_prog live)
   | KCluster => beh_of (if fwd then cluster_start_prog (e_enable e) (new_ok e) (init_ok e) (fetch_ok e) (watch_ok e)
                                                          (register_ok e) (keepalive_ok e)
                         else cluster_stop_prog prov half (delete_ok e))
@@ -244,6 +275,24 @@ Definition entry_live (e : env) (fwd live : bool) (k : kind) : bool :=
   | _ => live
   end.
 
+(* the fixed port after the entry: a Start that gets as far as remote.Start binds it (or finds it
+   bound); nothing ever releases it *)
+Definition entry_bound (e : env) (fwd bound : bool) (k : kind) : bool :=
+  match k with
+  | KActor => bound || (fwd && info_ok e && match e_addr e with AFixed => true | _ => false end)
+  | _ => bound
+  end.
+(* the published system after the entry: Start replaces the package variable (what was the same
+   object becomes an older one) and publishes the new system only when the remote is up *)
+Definition entry_pub (e : env) (fwd live bound : bool) (pub : pubst) (k : kind) : pubst :=
+  match k with
+  | KActor =>
+      if fwd && info_ok e then
+        if listen_ok e bound then PSame else match pub with PSame => POld live | p => p end
+      else pub
+  | _ => pub
+  end.
+
 (* ---- events ---- *)
 Inductive ev :=
 | EEnter (r i : Z)             (* run r entered Start/Stop of module i *)
@@ -253,6 +302,7 @@ Inductive ev :=
 | EAbort (r i : Z)
 | EEscape (r : Z)
 | EIndexPanic (r : Z)
+| EDeadlock (r : Z)            (* run r's completion callback made a request that was accepted while the list lock is held *)
 | EOutOfFuel
 | EHang.
 
@@ -264,7 +314,7 @@ Notation SNormal := 3 (only parsing).
 Notation SStoping := 4 (only parsing).
 Notation SStopped := 5 (only parsing).
 
-Definition is_app (m : mode) : bool := match m with MList => false | _ => true end.
+Definition is_app (m : mode) : bool := match m with MList | MListNode => false | _ => true end.
 
 (* what App.Start's / App.Stop's finish wrapper does around the user's finish(succ):
    new state, new cleaned flag, and whether Cleanup panicked.  Bare ModList: nothing. *)
@@ -277,10 +327,34 @@ Definition finish_effect (m : mode) (fwd succ : bool) (app : Z) (cleaned : bool)
 (* ---- one run: the work-list machine ---- *)
 Inductive act := ADo | ANx (i : Z) (b : bool) | AEnd (i : Z) (p : bool).
 
-Record bst := { b_idx : Z; b_app : Z; b_cleaned : bool; b_live : bool; b_prov : list Z; b_half : list Z; b_caps : list (Z * Z) }.
+(* b_susp: the completion callback made a request that was accepted while no list lock is held -
+   the rest of this burst's work list waits until the requested run's first chain has returned.
+   b_dead: it was accepted while the lock is held - the call never returns *)
+Record bst := { b_idx : Z; b_app : Z; b_cleaned : bool; b_live : bool; b_bound : bool; b_pub : pubst;
+                b_prov : list Z; b_half : list Z; b_caps : list (Z * Z);
+                b_susp : option (list act * bool); b_dead : bool }.
+
+Definition with_idx (s : bst) (idx : Z) : bst :=
+  {| b_idx := idx; b_app := b_app s; b_cleaned := b_cleaned s; b_live := b_live s; b_bound := b_bound s; b_pub := b_pub s;
+     b_prov := b_prov s; b_half := b_half s; b_caps := b_caps s; b_susp := b_susp s; b_dead := b_dead s |}.
+Definition with_app (s : bst) (app : Z) (cl : bool) : bst :=
+  {| b_idx := b_idx s; b_app := app; b_cleaned := cl; b_live := b_live s; b_bound := b_bound s; b_pub := b_pub s;
+     b_prov := b_prov s; b_half := b_half s; b_caps := b_caps s; b_susp := b_susp s; b_dead := b_dead s |}.
+Definition with_susp (s : bst) (wl : list act) (req : bool) : bst :=
+  {| b_idx := b_idx s; b_app := b_app s; b_cleaned := b_cleaned s; b_live := b_live s; b_bound := b_bound s; b_pub := b_pub s;
+     b_prov := b_prov s; b_half := b_half s; b_caps := b_caps s; b_susp := Some (wl, req); b_dead := b_dead s |}.
+(* App.Start / App.Stop set Starting / Stoping before they call into the module list *)
+Definition with_dead (s : bst) (req : bool) : bst :=
+  {| b_idx := b_idx s; b_app := if req then SStarting else SStoping; b_cleaned := b_cleaned s; b_live := b_live s;
+     b_bound := b_bound s; b_pub := b_pub s;
+     b_prov := b_prov s; b_half := b_half s; b_caps := b_caps s; b_susp := b_susp s; b_dead := true |}.
+
+(* App.Start is honoured in state Prepared only, App.Stop in state Normal only *)
+Definition accepted (app : Z) (req : bool) : bool := if req then app =? SPrepared else app =? SNormal.
 
 Section Burst.
-  Variables (e : env) (r : Z) (fwd : bool).
+  (* locked: this burst is the first chain of a Filter call, which holds the list's lock *)
+  Variables (e : env) (locked : bool) (r : Z) (fwd : bool).
 
   Definition nmods : Z := Z.of_nat (length (e_mods e)).
   Definition past_end (idx : Z) : bool := if fwd then nmods <=? idx else idx <? 0.
@@ -295,29 +369,48 @@ Section Burst.
     | _ :: wl' => unwind wl'
     end.
 
+  (* what the owner's completion callback of this run asks of the App (App modes only) *)
+  Definition request : option bool :=
+    if is_app (e_mode e) then (if fwd then e_cbs e else e_cbp e) else None.
+  (* the callback has just been invoked in state s (events evs): an accepted request either never
+     returns or suspends the rest of the work list; otherwise the burst goes on as [k] says *)
+  Definition on_callback (s : bst) (wl : list act) (evs : list ev) (k : bst * list act * list ev) : bst * list act * list ev :=
+    match request with
+    | Some req =>
+        if accepted (b_app s) req then
+          if locked then (with_dead s req, [], evs ++ [EDeadlock r]) else (with_susp s wl req, [], evs)
+        else k
+    | None => k
+    end.
+
   Definition step (a : act) (s : bst) (wl : list act) : bst * list act * list ev :=
     match a with
     | ANx i b =>
-        if b then
-          ({| b_idx := advance (b_idx s); b_app := b_app s; b_cleaned := b_cleaned s;
-              b_live := b_live s; b_prov := b_prov s; b_half := b_half s; b_caps := b_caps s |}, ADo :: wl, [ENext r i true])
-        else (s, wl, [ENext r i false; EFin r false])   (* the App wrappers do nothing on failure *)
+        if b then (with_idx s (advance (b_idx s)), ADo :: wl, [ENext r i true])
+        else (* the App wrappers do nothing on failure *)
+          on_callback s wl [ENext r i false; EFin r false] (s, wl, [ENext r i false; EFin r false])
     | ADo =>
         if past_end (b_idx s) then
+          (* App wrapper: new state, the owner's callback, then (Stop) Cleanup.  In state Stopped no
+             request is accepted, so the callback never stands between a stop run and its Cleanup *)
           let '(app, cl, pan) := finish_effect (e_mode e) fwd true (b_app s) (b_cleaned s) in
-          let s' := {| b_idx := b_idx s; b_app := app; b_cleaned := cl; b_live := b_live s; b_prov := b_prov s; b_half := b_half s; b_caps := b_caps s |} in
-          if pan then let '(wl', x) := unwind wl in (s', wl', [EFin r true; x])
-          else (s', wl, [EFin r true])
+          let s' := with_app s app cl in
+          on_callback s' wl [EFin r true]
+            (if pan then let '(wl', x) := unwind wl in (s', wl', [EFin r true; x])
+             else (s', wl, [EFin r true]))
         else if (b_idx s <? 0) || (nmods <=? b_idx s) then
           let '(wl', x) := unwind wl in (s, wl', [EIndexPanic r; x])
         else
           let k := nth (Z.to_nat (b_idx s)) (e_mods e) KWelcome in
-          let bh := entry_beh e fwd (b_live s) (zmem (b_idx s) (b_prov s)) (zmem (b_idx s) (b_half s)) k in
+          let bh := entry_beh e fwd (b_live s) (b_bound s) (zmem (b_idx s) (b_prov s)) (zmem (b_idx s) (b_half s)) k in
           ({| b_idx := b_idx s; b_app := b_app s; b_cleaned := b_cleaned s;
               b_live := entry_live e fwd (b_live s) k;
+              b_bound := entry_bound e fwd (b_bound s) k;
+              b_pub := entry_pub e fwd (b_live s) (b_bound s) (b_pub s) k;
               b_prov := entry_prov e fwd (b_idx s) (b_prov s) (b_half s) k;
               b_half := entry_half e fwd (b_idx s) (b_half s) k;
-              b_caps := b_caps s ++ [(r, b_idx s)] |},
+              b_caps := b_caps s ++ [(r, b_idx s)];
+              b_susp := b_susp s; b_dead := b_dead s |},
            map (ANx (b_idx s)) (calls_of bh) ++ AEnd (b_idx s) (panics_of bh) :: wl,
            [EEnter r (b_idx s)])
     | AEnd i p => (s, wl, if p then [ERaise r i] else [])
@@ -348,13 +441,17 @@ Definition weight (e : env) : nat := 2 + 2 * cmax (e_mods e).
 Definition fuel_for (e : env) : nat := 2 + length (e_mods e) * weight e.
 
 (* ---- the whole history ---- *)
-Record st := { s_runs : list (bool * Z); s_caps : list (Z * Z); s_app : Z; s_cleaned : bool; s_live : bool; s_prov : list Z; s_half : list Z }.
+(* s_susp: run r's burst is suspended with that work list behind an accepted request (only inside
+   one operation); s_dead: a call never returned - nothing happens any more *)
+Record st := { s_runs : list (bool * Z); s_caps : list (Z * Z); s_app : Z; s_cleaned : bool; s_live : bool;
+               s_bound : bool; s_pub : pubst; s_prov : list Z; s_half : list Z;
+               s_susp : option (Z * list act * bool); s_dead : bool }.
 
 Definition init (e : env) : st :=
   {| s_runs := []; s_caps := [];
      s_app := match e_mode e with MApp false => SState0 | _ => SPrepared end;
      s_cleaned := match e_mode e with MApp false => true | _ => false end;
-     s_live := false; s_prov := []; s_half := [] |}.
+     s_live := false; s_bound := false; s_pub := PNone; s_prov := []; s_half := []; s_susp := None; s_dead := false |}.
 
 Fixpoint upd_nth {A} (n : nat) (x : A) (l : list A) : list A :=
   match l, n with
@@ -363,23 +460,52 @@ Fixpoint upd_nth {A} (n : nat) (x : A) (l : list A) : list A :=
   | h :: t, S n' => h :: upd_nth n' x t
   end.
 
-Definition burst (e : env) (g : st) (r : Z) (fwd : bool) (idx : Z) (wl : list act) : st * list ev :=
-  let s0 := {| b_idx := idx; b_app := s_app g; b_cleaned := s_cleaned g; b_live := s_live g; b_prov := s_prov g; b_half := s_half g; b_caps := s_caps g |} in
-  let '(s1, evs) := exec e r fwd (fuel_for e) s0 wl in
+Definition burst (e : env) (locked : bool) (g : st) (r : Z) (fwd : bool) (idx : Z) (wl : list act) : st * list ev :=
+  let s0 := {| b_idx := idx; b_app := s_app g; b_cleaned := s_cleaned g; b_live := s_live g; b_bound := s_bound g; b_pub := s_pub g;
+               b_prov := s_prov g; b_half := s_half g; b_caps := s_caps g; b_susp := None; b_dead := false |} in
+  let '(s1, evs) := exec e locked r fwd (fuel_for e) s0 wl in
   ({| s_runs := upd_nth (Z.to_nat r) (fwd, b_idx s1) (s_runs g); s_caps := b_caps s1;
-      s_app := b_app s1; s_cleaned := b_cleaned s1; s_live := b_live s1; s_prov := b_prov s1; s_half := b_half s1 |}, evs).
+      s_app := b_app s1; s_cleaned := b_cleaned s1; s_live := b_live s1; s_bound := b_bound s1; s_pub := b_pub s1;
+      s_prov := b_prov s1; s_half := b_half s1;
+      s_susp := match b_susp s1 with Some (wl', req) => Some (r, wl', req) | None => None end;
+      s_dead := b_dead s1 |}, evs).
 
 Definition set_app (g : st) (a : Z) : st :=
-  {| s_runs := s_runs g; s_caps := s_caps g; s_app := a; s_cleaned := s_cleaned g; s_live := s_live g; s_prov := s_prov g; s_half := s_half g |}.
+  {| s_runs := s_runs g; s_caps := s_caps g; s_app := a; s_cleaned := s_cleaned g; s_live := s_live g;
+     s_bound := s_bound g; s_pub := s_pub g; s_prov := s_prov g; s_half := s_half g; s_susp := s_susp g; s_dead := s_dead g |}.
+Definition push_run (g : st) (x : bool * Z) : st :=
+  {| s_runs := s_runs g ++ [x]; s_caps := s_caps g; s_app := s_app g; s_cleaned := s_cleaned g; s_live := s_live g;
+     s_bound := s_bound g; s_pub := s_pub g; s_prov := s_prov g; s_half := s_half g; s_susp := s_susp g; s_dead := s_dead g |}.
 
-(* a new Filter call: index := 0 / len-1; doNow() *)
+(* a new Filter call: index := 0 / len-1; doNow() - under the list's lock *)
 Definition new_run (e : env) (g : st) (fwd : bool) : st * list ev :=
   let r := Z.of_nat (length (s_runs g)) in
-  let g' := {| s_runs := s_runs g ++ [(fwd, first_idx e fwd)]; s_caps := s_caps g; s_app := s_app g;
-               s_cleaned := s_cleaned g; s_live := s_live g; s_prov := s_prov g; s_half := s_half g |} in
-  burst e g' r fwd (first_idx e fwd) [ADo].
+  burst e true (push_run g (fwd, first_idx e fwd)) r fwd (first_idx e fwd) [ADo].
+
+(* after an unlocked burst: while a request stands accepted, carry it out (App.Start / App.Stop set
+   the state and call into the list: a new run) and then give the suspended run the rest of its
+   work list.  If the new run's call never returns, neither does anything else. *)
+Fixpoint settle (n : nat) (e : env) (g : st) : st * list ev :=
+  match s_susp g with
+  | None => (g, [])
+  | Some (r, wl, req) =>
+      match n with
+      | O => (g, [EOutOfFuel])
+      | S n' =>
+          let '(g1, e1) := new_run e (set_app g (if req then SStarting else SStoping)) req in
+          if s_dead g1 then (g1, e1) else
+          match nth_error (s_runs g1) (Z.to_nat r) with
+          | Some (fwd, idx) =>
+              let '(g2, e2) := burst e false g1 r fwd idx wl in
+              let '(g3, e3) := settle n' e g2 in
+              (g3, e1 ++ e2 ++ e3)
+          | None => (g1, e1)
+          end
+      end
+  end.
 
 Definition do_op (e : env) (g : st) (o : op) : st * list ev :=
+  if s_dead g then (g, []) else
   match o with
   | OStart =>
       if is_app (e_mode e) then
@@ -394,7 +520,10 @@ Definition do_op (e : env) (g : st) (o : op) : st * list ev :=
       match nth_error (s_caps g) (Z.to_nat k) with
       | Some (r, i) =>
           match nth_error (s_runs g) (Z.to_nat r) with
-          | Some (fwd, idx) => burst e g r fwd idx [ANx i b]
+          | Some (fwd, idx) =>
+              let '(g1, e1) := burst e false g r fwd idx [ANx i b] in
+              let '(g2, e2) := settle (fuel_for e) e g1 in
+              (g2, e1 ++ e2)
           | None => (g, [])
           end
       | None => (g, [])
